@@ -585,6 +585,6 @@ PROPS["C18"] = {
                  "intra-query preemption is covered by the independence argument: when the arena digest never changes no query "
                  "writes shared memory, so read-only steps commute"],
         "depth 2 over <= 90 queries (thorough: depth 3 over 40), 2x3 and 3x2 thread harnesses, preemption bound 1 with a point "
-        "cap (reported in vacuity_counters.caps_hit); sequential consistency only; state kept in statics is visible only through answers. The preemption explorer runs every (prefix, A, B) triple in three modes: on one shared instance (histories accumulate), on a never-queried clone and on a never-queried deserialized copy of a never-queried master (first-use effects); stress rounds after the first use fresh copies too. Subjects include 150k-600k element inputs with a rare symbol / very sparse bits (select ranges of more than 64 superblocks). A fourth mode uses clone_from into a Default value; the sequential histories also run on clones / deserialized / clone_from copies (origin). Subjects deeper than 32 levels (WT<u64>, WT<u128>, QWT256<u128>, QWT512Pfs<u64>). Impurity is detected by the arena digest and by an MMU probe (every query once with the arena read-only: transient writes count; counter queries_with_transient_writes). Interfering queries include one without an answer. A preemption point at which the interfering query does not finish within 60 ms (it blocks on a lock the preempted query holds) is counted, is no verdict, and suspends forking for the next 150 points."),
+        "cap (reported in vacuity_counters.caps_hit); sequential consistency only; state kept in statics is visible only through answers. The preemption explorer runs every (prefix, A, B) triple in three modes: on one shared instance (histories accumulate), on a never-queried clone and on a never-queried deserialized copy of a never-queried master (first-use effects); stress rounds after the first use fresh copies too. Subjects include 150k-600k element inputs with a rare symbol / very sparse bits (select ranges of more than 64 superblocks). A fourth mode uses clone_from into a Default value; the sequential histories also run on clones / deserialized / clone_from copies (origin). Subjects deeper than 32 levels (WT<u64>, WT<u128>, QWT256<u128>, QWT512Pfs<u64>). Impurity is detected by the arena digest and by an MMU probe (every query once with the arena read-only: transient writes count; counter queries_with_transient_writes). Interfering queries include one without an answer. A preemption point at which the interfering query does not finish within 3 ms (it blocks on a lock the preempted query holds, or the child was not scheduled) is counted and is no verdict; every following point is probed again."),
     "vacuity": lambda results: None if _merge_counters(results)[0].get("schedules", 0) > 1000 and _merge_counters(results)[0].get("subjects_with_one_reachable_state", 0) > 10 else "too few schedules or subjects",
 }
